@@ -12,9 +12,7 @@ the statistics, generator states that recur after having produced variates, rows
 import json
 import os
 import random
-from pathlib import Path
-
-from common import BUILD, CoqError, blit, coq_bad_indices, lst, opt, zlit
+from common import BUILD, blit, coq_bad_indices, lst, opt, zlit
 
 PROP = "C08"
 PROPERTY_FILE = "Properties/C08.v"
@@ -38,14 +36,26 @@ ASSUMPTIONS = ["a run starts from price()/price_with_constant_mc_paths_and_level
 THEOREM_NOTES = {
     "C08_single_process_disjoint": "all three single-process entry points (standard price, multilevel price and "
         "price_with_constant_mc_paths_and_level), every seed option, clock value, mode, number of dates/dimension, every schedule "
-        "and level/pass history: NoDup of all positions consumed, NoDup of the popped row tags, no re-seeding",
-    "C08_rows_exactly_once": "standard engine and constant multilevel run: created rows = popped rows, deques empty at the end, "
-        "no underflow.  The adaptive multilevel price() pre-draws rows it never uses (initialisation(), next_level()): consumed "
-        "zero times, see C08_adaptive_price_wastes_rows; harmless for independence, not reported as a finding",
-    "C08_workers_share_rows_refuted": "finding F-C08-3 on the delivered tree (design of the pool)",
-    "C08_preseed_draws_refuted": "tree before the fix: commits (F-C08-1), kept as the witness of the fix",
-    "C08_reseed_per_level_refuted": "tree before the fix: commits (F-C08-2)",
+        "and level/pass history, every ambient generator state: NoDup of all positions consumed, NoDup of the popped row tags, "
+        "exactly one seed event (first), no re-seeding.  Model follows the tree with the three fix: commits of branch fix-rng",
+    "C08_rows_exactly_once": "standard engine and constant multilevel run (fixed-date mode): created rows = popped rows, the deques "
+        "used are empty at the end, no underflow.  The adaptive multilevel price() pre-draws rows it never uses (initialisation(), "
+        "next_level() of an added level): consumed zero times (visible in Example C08_nonvacuous: deques 1,2,9,10 are never "
+        "popped); wasted variates, harmless for independence, not reported as a finding",
+    "C08_seeded_repeatable": "equality of the complete position traces from any two ambient generator states; that equal "
+        "positions give equal values (hence equal schedules, by induction along the run) is not formalised: the schedule is a "
+        "parameter common to both runs; monitored by the bit-for-bit comparison of two seeded runs on the implementation",
+    "C08_pool_jump_mode_disjoint": "worker pool of the standard engine in jump-time mode, for every assignment of chunks to "
+        "workers; hypothesis: pairwise different worker seeds ((pid*int(time)) % 123456789 of live processes; not proved distinct)",
+    "C08_workers_share_rows_refuted": "finding F-C08-3 on the delivered tree (design of the pool): fixed-date mode with "
+        "nb_of_processes > 1; the multilevel engine builds the same pool in compute_level_l (covered by the oracle, not modelled)",
+    "C08_preseed_draws_refuted": "tree before the fix: commits (F-C08-1), kept as the machine-checked witness of the fix",
+    "C08_reseed_per_level_refuted": "tree before the fix: commits (F-C08-2): seeded, and unseeded with two calls in the same second",
     "C08_seed_zero_refuted": "tree before the fix: commits (F-C08-4)",
+    "not_covered": "processes other than LevyProcess / MarkovChainProcess / CouplingMarkovChain (copula, SDE and series "
+        "processes have their own pre-draw code) and dimension > 1 are not traced; the actual chunking of a pool is whatever the OS "
+        "schedules (the theorems quantify over all chunkings, a run observes one); max_step_epsilon simulators are not reachable "
+        "from the engines",
 }
 LEVEL_TEXT = ("Proof: Coq theorems (closed under the global context) about an executable model of the generators (abstract "
               "positions), the pre-drawn deques and the instruction sequences of both engines: for nb_of_processes = 1, every "
@@ -88,6 +98,11 @@ def env():
     import rpylib.montecarlo.configuration as CFG
 
     rngtrace.TR.install()
+    import logging
+    logging.getLogger().setLevel(logging.ERROR)
+    import warnings
+    warnings.simplefilter("ignore")
+    os.environ["PYTHONWARNINGS"] = "ignore"     # worker processes
 
     class SpotAtDates(Spot):
         """Spot at maturity, observed on a product grid with several dates (drives the multi-date fixed mode)"""
@@ -110,10 +125,10 @@ def env():
         raise ValueError(kind)
 
     def model(name):
-        return create_exponential_of_levy_model({"hem": ModelType.HEM, "merton": ModelType.MERTON}[name])()
+        return create_exponential_of_levy_model({"hem": ModelType.HEM, "merton": ModelType.MERTON}[name])(intensity=6)
 
     _ENV.update(np=np, TR=rngtrace.TR, rt=rngtrace, product=product, model=model, CFG=CFG,
-                real_time=CFG.time, logdir=BUILD / PROP / "wlogs")
+                real_time=CFG.time, logdir=BUILD / PROP / f"wlogs_{os.getpid()}")
     return _ENV
 
 
@@ -162,11 +177,13 @@ class Script:
     """scripted ConvergenceCriteria: returns the listed allocations / verdicts and records the calls"""
 
     def __init__(self, ns, verdicts):
-        self.ns, self.verdicts, self.calls = list(ns), list(verdicts), []
+        self.ns, self.verdicts, self.calls, self.last = list(ns), list(verdicts), [], [1]
 
     def compute_mc_paths(self, rmse, vl, cl):
         import numpy as np
-        want = self.ns.pop(0)
+        if self.ns:
+            self.last = self.ns.pop(0)
+        want = self.last
         out = np.array([want[min(i, len(want) - 1)] for i in range(len(vl))], dtype=int)
         self.calls.append(("ns", len(vl)))
         return out
@@ -262,75 +279,79 @@ Definition chk_pool (r : list ev * list (list ev) * list sample) (ex : list (lis
 
 # ----------------------------------------------------------------------------------------- oracle
 def oracle(res, cfg, can, workers, vals, continuous):
-    """implementation-only checks on one traced run; reports through res.violation"""
+    """implementation-only checks on one traced run; reports through res.violation.
+    Finding ids are attached only to the recorded classes:
+      F-C08-1 draws before the seed, F-C08-2 re-seeding within a run, F-C08-4 seed 0 ignored (single process),
+      F-C08-3 rows of the parent's deques popped by several chunks of a worker pool (fixed-date mode)."""
     def viol(what, finding, **kw):
-        rep = {"finding": finding, "config": {k: v for k, v in cfg.items() if k not in ("ns", "verdicts")}}
-        if "ns" in cfg:
-            rep["config"]["ns"], rep["config"]["verdicts"] = cfg["ns"], cfg["verdicts"]
+        rep = {"finding": finding, "kind": "trace", "config": dict(cfg)}
         rep.update(kw)
         res.violation(what, rep)
 
     multi = cfg["nproc"] != 1
     logs = [("parent", can)] + [(f"worker{pid}", w) for pid, w in workers.items()]
+    prepos = {p for ps in can.rowpos.values() for p in ps}      # positions stored in rows pre-drawn by the parent
     # rows consumed more than once / rows of a deque that was not created in this run
     seen = {}
     for who, c in logs:
         for k, s in enumerate(c.samples):
             for tg in s["rows"]:
                 if tg[0] == 0 or tg[1] < 0:
-                    viol("a row popped does not belong to a deque created during the run", "F-C08-5", who=who, sample=k, tag=list(tg))
+                    viol("a row popped does not belong to a deque created during the run", None, who=who, sample=k, tag=list(tg))
                 seen.setdefault(tg, []).append((who, k, s.get("it")))
     dup = {tg: v for tg, v in seen.items() if len(v) > 1}
     if dup:
         tg = sorted(dup)[0]
         viol("a pre-drawn row is consumed by more than one sample" + (" (worker processes pop copies of the same deque)" if multi else ""),
-             "F-C08-3" if multi else "F-C08-6", tag=list(tg), consumers=[list(map(str, x)) for x in dup[tg]][:6], rows_shared=len(dup))
+             "F-C08-3" if multi else None, tag=list(tg), consumers=[list(map(str, x)) for x in dup[tg]][:6], rows_shared=len(dup))
     # generator states that recur after having produced variates
     for kind in ("np", "py"):
-        first = {}
+        first, hit = {}, None
         for who, c in logs:
             for j, (k, h, why) in enumerate(c.hashes):
                 if k != kind:
                     continue
-                if h in first and first[h] != (who, j):
-                    viol(f"the {'numpy' if kind == 'np' else 'python'} generator returns to a state it has already been in "
-                         f"({'re-seeded with the same value' if why == 'seed' else 'same state in two processes'})",
-                         "F-C08-2" if not multi else "F-C08-7", first=list(map(str, first[h])), again=[who, j], after=why)
-                    break
+                if h in first and hit is None:
+                    hit = (first[h], (who, j), why)
                 first.setdefault(h, (who, j))
-            else:
-                continue
-            break
+        if hit:
+            viol(f"the {'numpy' if kind == 'np' else 'python'} generator returns to a state it has already been in "
+                 f"({'re-seeded to it' if hit[2] == 'seed' else 'same state reached twice'})",
+                 "F-C08-2" if (not multi and hit[2] == "seed") else None, first=list(map(str, hit[0])), again=list(map(str, hit[1])), after=hit[2])
     # samples sharing abstract positions (harness bookkeeping of the real calls)
-    used = {}
+    used, hit = {}, None
     for who, c in logs:
         for k, s in enumerate(c.samples):
             for p in s["pos"]:
-                if p in used and used[p] != (who, k):
-                    viol("two samples are generated from the same variate", "F-C08-3" if multi else "F-C08-2",
-                         position=list(p), samples=[list(map(str, used[p])), [who, k]])
-                    break
-                used[p] = (who, k)
-            else:
-                continue
-            break
+                if p in used and hit is None:
+                    hit = (p, used[p], (who, k))
+                used.setdefault(p, (who, k))
+    if hit:
+        p = hit[0]
+        f = ("F-C08-3" if (p in prepos and dup) else None) if multi else ("F-C08-2" if len(can.seeds) > 1 else None)
+        viol("two samples are generated from the same variate", f, position=list(p), samples=[list(map(str, hit[1])), list(map(str, hit[2]))])
     # duplicated sample values in the statistics (continuous payoffs only)
     if continuous:
         for lvl, vs in enumerate(vals):
-            nz = [v for v in vs]
             d = {}
-            for i, v in enumerate(nz):
+            for i, v in enumerate(vs):
                 d.setdefault(v, []).append(i)
             rep = {v: ix for v, ix in d.items() if len(ix) > 1}
             if rep:
                 v = sorted(rep, key=lambda x: -len(rep[x]))[0]
-                viol("identical sample values stored in the statistics of one level", "F-C08-3" if multi else "F-C08-2",
-                     level=lvl, value=v, indices=rep[v][:8], distinct_values=len(d), samples=len(nz))
+                f = ("F-C08-3" if dup else None) if multi else ("F-C08-2" if len(can.seeds) > 1 else None)
+                viol("identical sample values stored in the statistics of one level", f,
+                     level=lvl, value=v, indices=rep[v][:8], distinct_values=len(d), samples=len(vs))
     # seeding discipline of a single-process run: exactly one seed, before the first draw
     if not multi:
         want = cfg["seed"] if cfg["seed"] is not None else predicted_t(cfg["T"][0] if isinstance(cfg["T"], list) else cfg["T"])
         if can.seeds != [want]:
-            f = "F-C08-4" if cfg["seed"] == 0 and can.seeds and can.seeds[0] != 0 else "F-C08-2"
+            if cfg["seed"] == 0 and can.seeds and can.seeds[0] != 0:
+                f = "F-C08-4"
+            elif len(can.seeds) > 1 and set(can.seeds) == {want}:
+                f = "F-C08-2"
+            else:
+                f = None
             viol("single-process run: the generators are not seeded exactly once with the configured seed", f,
                  seed_calls=can.seeds[:8], expected=[want])
         first_draw = next((i for i, e in enumerate(can.events) if e[0] == 1), None)
@@ -339,31 +360,37 @@ def oracle(res, cfg, can, workers, vals, continuous):
             viol("variates are drawn before the seed is applied", "F-C08-1", first_draw_event=first_draw, first_seed_event=first_seed)
 
 
+def matches_known(v, known):
+    """a listed finding only explains violations of its own class"""
+    if known["id"] == "F-C08-3":
+        c = v["replay"].get("config", {})
+        return c.get("nproc", 1) != 1 and MODE.get(c.get("prod"), (False,))[0]
+    return True
+
+
+def stored_values(evs):
+    """every (level, index, value) written into the statistics during the run, in order (from the trace)"""
+    return [(e["lvl"], e["idx"], tuple(e["val"])) for e in evs if e["e"] == "stat"]
+
+
 def repeat_oracle(res, E, cfg, runner, rng):
-    """two runs with the same seed from different ambient states must agree bit for bit"""
+    """two runs with the same seed from different ambient generator states must agree bit for bit:
+    every value stored in the statistics, and the price where every statistics row is written by the run
+    (the adaptive price() averages rows it never wrote -- property C05's concern -- so its price is not compared)"""
     out = []
     for _ in range(2):
         r = runner(E, cfg, rng)
-        out.append((r[2], r[3]))
+        out.append((stored_values(r[0]), r[3] if cfg["engine"] != "mlp" else None))
     if out[0] != out[1]:
-        f = "F-C08-4" if cfg["seed"] == 0 else ("F-C08-1" if cfg["engine"] == "std" else "F-C08-2")
+        k = next((i for i, (a, b) in enumerate(zip(out[0][0], out[1][0])) if a != b), None)
         res.violation("two single-process runs with the same seed give different results", {
-            "finding": f, "kind": "repeat", "config": dict(cfg), "price_1": out[0][1], "price_2": out[1][1]})
+            "finding": None, "kind": "repeat", "config": dict(cfg), "price_1": out[0][1], "price_2": out[1][1],
+            "first_differing_sample": None if k is None else [list(map(str, out[0][0][k])), list(map(str, out[1][0][k]))],
+            "candidates": "F-C08-1 (draws before the seed), F-C08-2 (re-seeding per level), F-C08-4 (seed 0 ignored)"})
     return out[0] == out[1]
 
 
 # ----------------------------------------------------------------------------------------- case construction
-def split_levels(can, nlev=None):
-    """samples grouped by consecutive level"""
-    groups = []
-    for s in can.samples:
-        if groups and groups[-1][0] == s["lvl"]:
-            groups[-1][1].append(s)
-        else:
-            groups.append((s["lvl"], [s]))
-    return groups
-
-
 def std_case(cfg, can):
     t = predicted_t(cfg["T"])
     ss = lst([sched_lit(s["sched"]) for s in can.samples])
@@ -380,24 +407,50 @@ def mlc_case(cfg, can):
     return f"(({opt(cfg['seed'], zlit)}, {zlit(t)}, {mode_lit(cfg)}, {zlit(cfg['n0'])}, {levels}), {expected_lit(can)})"
 
 
-def mlp_case(cfg, can, script, pre_ns):
-    """history from the engine's own control flow: passes end at every compute_mc_paths call of the loop"""
+def mlp_case(cfg, evs, can, script):
+    """history of an adaptive price() run: the pass structure follows the engine's control flow as
+    recorded by the scripted criteria (one compute_mc_paths call ends a pass; a False verdict followed by
+    a call with one more level = a level was added); the numbers of rows (pre_computation arguments) and
+    the schedules of the samples are read from the trace."""
     t = predicted_t(cfg["T"])
-    L = cfg["L0"]
-    samples = list(can.samples)
-    passes = []
-    calls = list(script.calls)
+    toks = []
+    k = 0
+    for ev in evs:
+        if ev["e"] == "pre":
+            toks.append(("pre", ev["n"]))
+        elif ev["e"] == "end":
+            toks.append(("s", can.samples[k]["lvl"], can.samples[k]["sched"]))
+            k += 1
     pos = 0
+
+    def expect_pre():
+        nonlocal pos
+        if pos >= len(toks) or toks[pos][0] != "pre":
+            raise ValueError(f"history parse: pre_computation expected at token {pos}: {toks[pos:pos + 3]}")
+        pos += 1
+        return toks[pos - 1][1]
+
+    n0 = expect_pre()
+    L, cr = cfg["L0"], 1
+    calls = list(script.calls)
     ci = 0
+    passes = []
     while ci < len(calls):
-        assert calls[ci] == ("ns", L + 1), (calls, ci, L)
+        if calls[ci] != ("ns", L + 1):
+            raise ValueError(f"history parse: unexpected criteria call {calls[ci]} with L={L}")
         ci += 1
         levels = []
         for lvl in range(L + 1):
+            if cr <= lvl:
+                if expect_pre() != 0:
+                    raise ValueError("history parse: next_level(0) expected for a level created in the first pass")
+                cr += 1
+            n = expect_pre()
             cur = []
-            while pos < len(samples) and samples[pos]["lvl"] == lvl and (not cur or samples[pos]["idx"] == cur_last + 1):
-                cur.append(samples[pos]["sched"])
-                cur_last = samples[pos]["idx"]
+            for _ in range(n):
+                if pos >= len(toks) or toks[pos][0] != "s" or toks[pos][1] != lvl:
+                    raise ValueError(f"history parse: sample of level {lvl} expected at token {pos}")
+                cur.append(toks[pos][2])
                 pos += 1
             levels.append(cur)
         add = None
@@ -407,91 +460,252 @@ def mlp_case(cfg, can, script, pre_ns):
             if not verdict and ci < len(calls) and calls[ci] == ("ns", L + 2):
                 ci += 1
                 L += 1
-                add = "?"
-        passes.append([levels, add])
-    # the number of rows pre-drawn by next_level when a level is added: observed pre_computation argument
-    adds = [p for p in passes if p[1] == "?"]
-    return passes, adds, t
+                cr += 1
+                add = expect_pre()
+        passes.append((levels, add))
+    if pos != len(toks):
+        raise ValueError(f"history parse: {len(toks) - pos} trailing tokens")
+    plit = lst([f"(mkPass {lst([lst([sched_lit(sc) for sc in lv]) for lv in levels])} {opt(add, zlit)})" for levels, add in passes])
+    return f"(({opt(cfg['seed'], zlit)}, {zlit(t)}, {mode_lit(cfg)}, {zlit(n0)}, {plit}), {expected_lit(can)})", passes
+
+
+def pool_case(cfg, parent, workers_can):
+    """workers_can: [(pid, Canon)] sorted by pid; chunks = maximal runs of samples between two arrivals of deque copies"""
+    wseeds, chunks, xlogs, xsamples = [], [], [], []
+    for w, (pid, c) in enumerate(workers_can):
+        wseeds.append(predicted_t(cfg["T"], pid))
+        starts = c.chunk_starts if c.chunk_starts else [0]
+        if starts[0] != 0:
+            starts = [0] + starts
+        bounds = starts + [len(c.samples)]
+        for a, b in zip(bounds, bounds[1:]):
+            if b > a:
+                chunks.append((w, [s["sched"] for s in c.samples[a:b]]))
+        xlogs.append([[(-1 if v is None else v) for v in e] for e in c.events])
+        xsamples += enc_samples(c.samples)
+    clit = lst([f"({w}%nat, {lst([sched_lit(sc) for sc in ss])})" for w, ss in chunks])
+    pe = [[(-1 if v is None else v) for v in e] for e in parent.events]
+    exp = f"({zll(pe)}, {lst([zll(lg) for lg in xlogs])}, {zll(xsamples)})"
+    return f"(({mode_lit(cfg)}, {zlit(cfg['n'])}, {lst([zlit(x) for x in wseeds])}, {clit}), {exp})", wseeds, chunks
+
+
+def gen_cfgs(rng, tier):
+    """configurations of one check run (all randomness from rng)"""
+    big = tier != "quick"
+    out = {"std": [], "mlc": [], "mlp": [], "pool": [], "mlpool": []}
+    seeds = [None, 0, 7, rng.randrange(1, 2 ** 31)]
+    for rep in range(8 if big else 2):
+        for prod in ("fwd1", "fwd3", "cds"):
+            for model, proc in (("hem", "levy"), ("merton", "levy"), ("hem", "inv"), ("merton", "bst1d")):
+                for seed in seeds:
+                    out["std"].append(dict(engine="std", prod=prod, model=model, proc=proc, n=rng.choice([1, 2, 3, 5, 6, 8] if big else [1, 2, 3, 5, 6]),
+                                           seed=seed, nproc=1, T=rng.randrange(10 ** 9, 2 * 10 ** 9)))
+    out["std"].append(dict(engine="std", prod="fwd1", model="hem", proc="levy", n=0, seed=5, nproc=1, T=1700000000))
+    for rep in range(8 if big else 2):
+        for prod in ("fwd1", "fwd3", "cds"):
+            for model, proc in (("hem", "inv"), ("merton", "bst1d")):
+                for seed in (None, 0, 11):
+                    out["mlc"].append(dict(engine="mlc", prod=prod, model=model, proc=proc, n0=rng.choice([1, 2, 3]), L0=1,
+                                           Lmax=rng.choice([1, 2, 3]), seed=seed, nproc=1, T=rng.randrange(10 ** 9, 2 * 10 ** 9)))
+    for rep in range(10 if big else 2):
+        for prod in ("fwd1", "fwd3", "cds"):
+            for model, proc in (("hem", "inv"), ("merton", "bst1d")):
+                for seed in (None, 0, 13):
+                    L0 = rng.choice([1, 2])
+                    n0 = rng.choice([1, 2, 3])
+                    vec = [n0] * 6
+                    ns = []
+                    for _ in range(rng.choice([2, 3, 4, 5])):
+                        vec = [v + rng.choice([0, 0, 0, 1, 2]) for v in vec]
+                        ns.append(list(vec))
+                    verdicts = [rng.random() < 0.35 for _ in range(4)]
+                    out["mlp"].append(dict(engine="mlp", prod=prod, model=model, proc=proc, n0=n0, L0=L0, Lmax=L0 + rng.choice([0, 1, 2]),
+                                           seed=seed, nproc=1, T=rng.randrange(10 ** 9, 2 * 10 ** 9), ns=ns, verdicts=verdicts))
+    for rep in range(6 if big else 2):
+        for prod in ("fwd1", "fwd3", "cds"):
+            for nproc in (2, 4):
+                for model, proc in (("hem", "levy"), ("merton", "inv")):
+                    out["pool"].append(dict(engine="std", prod=prod, model=model, proc=proc, n=rng.choice([3, 5, 8, 9, 17]),
+                                            seed=rng.choice([None, 5]), nproc=nproc, T=rng.randrange(10 ** 9, 2 * 10 ** 9)))
+    out["mlpool"] = [dict(engine="mlc", prod="fwd1", model="hem", proc="inv", n0=4, L0=1, Lmax=1, seed=None, nproc=2, T=1700000001),
+                     dict(engine="mlc", prod="cds", model="hem", proc="inv", n0=3, L0=1, Lmax=1, seed=None, nproc=2, T=1700000002),
+                     dict(engine="mlp", prod="fwd3", model="merton", proc="bst1d", n0=3, L0=1, Lmax=2, seed=None, nproc=2, T=1700000003,
+                          ns=[[3, 3, 3], [4, 3, 3], [4, 3, 5]], verdicts=[False, True])]
+    return out
+
+
+def fresh(cfg):
+    c = dict(cfg)
+    if "ns" in c:
+        c["ns"] = [list(v) for v in c["ns"]]
+        c["verdicts"] = list(c["verdicts"])
+    return c
+
+
+def process_run(res, E, group, cfg, rng):
+    """one traced run: oracle on the implementation + the Coq case (or None)"""
+    rt = E["rt"]
+
+    def note_problems(can, who="parent"):
+        for p in can.problems:
+            res.broke("correspondence trace well-formedness", f"{p} [{who}] config={cfg}")
+
+    if group == "std":
+        evs, _, vals, price = run_std(E, cfg, rng)
+        can = rt.canonical(evs)
+        note_problems(can)
+        nt = len(can.samples) >= 2 and any(k > 0 for s in can.samples for _, k in s["sched"])
+        res.count(("std", str(cfg), len(can.events)), nontrivial=nt, kind=f"std/{cfg['prod']}/{cfg['proc']}")
+        res.bump("seed_kind", "None" if cfg["seed"] is None else ("0" if cfg["seed"] == 0 else "k"))
+        res.bump("samples_per_run", len(can.samples))
+        res.bump("fresh_draws_per_run", min(50, sum(k for s in can.samples for _, k in s["sched"]) // 5 * 5))
+        oracle(res, cfg, can, {}, vals, continuous=cfg["prod"] != "cds")
+        return std_case(cfg, can)
+    if group == "mlc":
+        evs, _, vals, price, _ = run_ml(E, cfg, rng)
+        can = rt.canonical(evs)
+        note_problems(can)
+        nt = len(can.samples) >= 2 and any(k > 0 for s in can.samples for _, k in s["sched"])
+        res.count(("mlc", str(cfg), len(can.events)), nontrivial=nt, kind=f"mlc/{cfg['prod']}/{cfg['proc']}")
+        res.bump("levels", cfg["Lmax"] + 1)
+        oracle(res, cfg, can, {}, vals, continuous=False)
+        return mlc_case(cfg, can)
+    if group == "mlp":
+        evs, _, vals, price, script = run_ml(E, fresh(cfg), rng)
+        can = rt.canonical(evs)
+        note_problems(can)
+        oracle(res, cfg, can, {}, vals, continuous=False)
+        try:
+            case, passes = mlp_case(cfg, evs, can, script)
+        except ValueError as e:
+            res.broke("correspondence mlp history", f"{e} config={cfg}")
+            return None
+        nt = len(can.samples) >= 2 and any(k > 0 for s in can.samples for _, k in s["sched"]) and len(passes) >= 2
+        res.count(("mlp", str(cfg), len(can.events)), nontrivial=nt, kind=f"mlp/{cfg['prod']}/{cfg['proc']}")
+        res.bump("passes", len(passes))
+        res.bump("levels_added", sum(1 for _, a in passes if a is not None))
+        return case
+    if group == "pool":
+        evs, wl, vals, price = run_std(E, cfg, rng)
+        parent = rt.canonical(evs)
+        note_problems(parent)
+        wcan = []
+        for pid in sorted(wl):
+            c = rt.canonical(wl[pid], rowpos=parent.rowpos)
+            note_problems(c, who=f"worker {pid}")
+            wcan.append((pid, c))
+            if c.seeds != [predicted_t(cfg["T"], pid)]:
+                res.broke("correspondence pool initializer", f"worker {pid} seeded with {c.seeds}, model predicts "
+                                                             f"[(pid*int(time)) % 123456789] = {predicted_t(cfg['T'], pid)}")
+        total = sum(len(c.samples) for _, c in wcan)
+        if total != cfg["n"]:
+            res.broke("correspondence pool", f"{total} samples traced in the workers for mc_paths={cfg['n']} config={cfg}")
+        case, wseeds, chunks = pool_case(cfg, parent, wcan)
+        res.count(("pool", str(cfg), total, len(chunks)), nontrivial=total >= 2 and len(chunks) >= 2,
+                  kind=f"pool{cfg['nproc']}/{cfg['prod']}/{cfg['proc']}")
+        res.bump("chunks", len(chunks))
+        res.bump("workers_used", len(wcan))
+        oracle(res, cfg, parent, dict(wcan), vals, continuous=cfg["prod"] != "cds")
+        return case
+    if group == "mlpool":   # multilevel engine with pools: oracle only (compute_level_l builds the same pool per level)
+        evs, wl, vals, price, _ = run_ml(E, fresh(cfg), rng)
+        parent = rt.canonical(evs)
+        wcan = {pid: rt.canonical(wl[pid], rowpos=parent.rowpos) for pid in sorted(wl)}
+        res.count(("mlpool", str(cfg)), kind=f"{cfg['engine']}-pool/{cfg['prod']}")
+        oracle(res, cfg, parent, wcan, vals, continuous=False)
+        return None
+    raise ValueError(group)
+
+
+RUNNER = {"std": run_std, "mlc": run_ml, "mlp": lambda E, c, r: run_ml(E, fresh(c), r)}
+
+COQ_GROUPS = {
+    "std": ("(option Z * Z * mode * list sched) * (list (list Z) * list (list Z))",
+            "fun c => let '(sd, t, m, ss, ex) := c in chk (std_ops sd t m ss) ex"),
+    "mlc": ("(option Z * Z * mode * Z * list (list sched)) * (list (list Z) * list (list Z))",
+            "fun c => let '(sd, t, m, n0, lv, ex) := c in chk (mlc_ops sd t m n0 lv) ex"),
+    "mlp": ("(option Z * Z * mode * Z * list pass) * (list (list Z) * list (list Z))",
+            "fun c => let '(sd, t, m, n0, ps, ex) := c in chk (mlp_ops sd t m n0 ps) ex"),
+    "pool": ("(mode * Z * list Z * list (nat * list sched)) * (list (list Z) * list (list (list Z)) * list (list Z))",
+             "fun c => let '(m, n, ws, ch, ex) := c in chk_pool (pool_run (mkGen (-1) 0 0) m n ws ch) ex"),
+}
 
 
 def correspond(res):
     E = env()
     rng = random.Random(res.seed)
-    tier = res.tier
-    rt = E["rt"]
-    groups = {"std": [], "mlc": [], "mlp": [], "pool": []}
-    info = {"std": [], "mlc": [], "mlp": [], "pool": []}
-
-    def note_problems(cfg, can, who="parent"):
-        for p in can.problems:
-            res.broke("correspondence trace well-formedness", f"{p} [{who}] config={cfg}")
-
-    # ------------------------------------------------------------------ standard engine, one process
-    std_cfgs = []
-    seeds = [None, 0, 7, rng.randrange(1, 2 ** 31)]
-    for prod in ("fwd1", "fwd3", "cds"):
-        for model, proc in (("hem", "levy"), ("merton", "levy"), ("hem", "inv"), ("merton", "bst1d")):
-            for seed in seeds:
-                std_cfgs.append(dict(engine="std", prod=prod, model=model, proc=proc, n=rng.choice([1, 2, 3, 5, 6]), seed=seed,
-                                     nproc=1, T=rng.randrange(10 ** 9, 2 * 10 ** 9)))
-    std_cfgs.append(dict(engine="std", prod="fwd1", model="hem", proc="levy", n=0, seed=5, nproc=1, T=1700000000))
-    if tier == "quick":
-        std_cfgs = std_cfgs[::2] + std_cfgs[1::8]
-    else:
-        std_cfgs = std_cfgs * 3
-    for cfg in std_cfgs:
-        evs, _, vals, price = run_std(E, cfg, rng)
-        can = rt.canonical(evs)
-        note_problems(cfg, can)
-        fixed = MODE[cfg["prod"]][0]
-        nt = len(can.samples) >= 2 and any(k > 0 for s in can.samples for _, k in s["sched"]) and (not fixed or len(can.samples) >= 2)
-        res.count(("std", tuple(sorted((k, str(v)) for k, v in cfg.items())), len(can.events)), nontrivial=nt, kind=f"std/{cfg['prod']}/{cfg['proc']}")
-        res.bump("seed_kind", "None" if cfg["seed"] is None else ("0" if cfg["seed"] == 0 else "k"))
-        res.bump("samples_per_run", len(can.samples))
-        oracle(res, cfg, can, {}, vals, continuous=cfg["prod"] != "cds")
-        groups["std"].append(std_case(cfg, can))
-        info["std"].append(cfg)
-    for cfg in [c for c in std_cfgs if c["seed"] is not None][:: (3 if tier == "quick" else 1)]:
-        repeat_oracle(res, E, cfg, run_std, rng)
-        res.count(("repeat", str(cfg)), kind="repeat/std")
-
-    # ------------------------------------------------------------------ multilevel engine, constant paths and levels
-    mlc_cfgs = []
-    for prod in ("fwd1", "fwd3", "cds"):
-        for model, proc in (("hem", "inv"), ("merton", "bst1d")):
-            for seed in (None, 0, 11):
-                mlc_cfgs.append(dict(engine="mlc", prod=prod, model=model, proc=proc, n0=rng.choice([1, 2, 3]), L0=1,
-                                     Lmax=rng.choice([1, 2, 3]), seed=seed, nproc=1, T=rng.randrange(10 ** 9, 2 * 10 ** 9)))
-    if tier == "quick":
-        mlc_cfgs = mlc_cfgs[::2]
-    for cfg in mlc_cfgs:
-        evs, _, vals, price, _ = run_ml(E, cfg, rng)
-        can = rt.canonical(evs)
-        note_problems(cfg, can)
-        nt = len(can.samples) >= 2 and any(k > 0 for s in can.samples for _, k in s["sched"])
-        res.count(("mlc", str(cfg), len(can.events)), nontrivial=nt, kind=f"mlc/{cfg['prod']}/{cfg['proc']}")
-        res.bump("levels", cfg["Lmax"] + 1)
-        oracle(res, cfg, can, {}, vals, continuous=False)
-        groups["mlc"].append(mlc_case(cfg, can))
-        info["mlc"].append(cfg)
-    for cfg in [c for c in mlc_cfgs if c["seed"] is not None][:: (2 if tier == "quick" else 1)]:
-        repeat_oracle(res, E, cfg, run_ml, rng)
-        res.count(("repeat", str(cfg)), kind="repeat/mlc")
-
-    # ------------------------------------------------------------------ Coq side
-    groups_coq = []
-    if groups["std"]:
-        groups_coq.append(("std", "(option Z * Z * mode * list sched) * (list (list Z) * list (list Z))",
-                           "fun c => let '(sd, t, m, ss, ex) := c in chk (std_ops sd t m ss) ex", groups["std"]))
-    if groups["mlc"]:
-        groups_coq.append(("mlc", "(option Z * Z * mode * Z * list (list sched)) * (list (list Z) * list (list Z))",
-                           "fun c => let '(sd, t, m, n0, lv, ex) := c in chk (mlc_ops sd t m n0 lv) ex", groups["mlc"]))
-    res.case_lemmas += len(groups_coq)
+    cfgs = gen_cfgs(rng, res.tier)
+    cases = {g: [] for g in COQ_GROUPS}
+    info = {g: [] for g in COQ_GROUPS}
+    try:
+        for group in ("std", "mlc", "mlp", "pool", "mlpool"):
+            for cfg in cfgs[group]:
+                case = process_run(res, E, group, cfg, rng)
+                if case is not None:
+                    cases[group].append(case)
+                    info[group].append(cfg)
+            if group in RUNNER:   # two runs with the same seed, different ambient generator states: bit-for-bit equal
+                seeded = [c for c in cfgs[group] if c["seed"] is not None]
+                for cfg in seeded[:: (3 if res.tier == "quick" else 1)]:
+                    repeat_oracle(res, E, cfg, RUNNER[group], rng)
+                    res.count(("repeat", str(cfg)), kind=f"repeat/{group}")
+    finally:
+        cleanup(E)
+    # ---- Coq side: the model must produce exactly the traced events and sample positions
+    groups_coq = [(g, COQ_GROUPS[g][0], COQ_GROUPS[g][1], cases[g]) for g in COQ_GROUPS if cases[g]]
+    res.case_lemmas += len(COQ_GROUPS)
     bad = coq_bad_indices(PROP, "cases", HEADER, groups_coq, timeout=900)
-    for g, ty, chk, cases in groups_coq:
+    for g, ty, chk, cs in groups_coq:
         if bad[g]:
             i = bad[g][0]
-            res.broke(f"correspondence {g}", f"model trace and implementation trace differ on {len(bad[g])} run(s), first: "
-                                             f"config={info[g][i]} case={cases[i][:1500]}")
+            res.broke(f"correspondence {g}", f"model trace and implementation trace differ on {len(bad[g])} of {len(cs)} run(s), first: "
+                                             f"config={info[g][i]} case={cs[i][:1200]}")
         else:
             res.case_ok += 1
+
+
+def cleanup(E):
+    import shutil
+    shutil.rmtree(str(E["logdir"]), ignore_errors=True)
+
+
+def search(res):
+    """something is broken and the oracle of the quick sweep found nothing: larger oracle-only sweep"""
+    E = env()
+    rng = random.Random(res.seed + 1)
+    cfgs = gen_cfgs(rng, "thorough")
+    quiet = type(res)(res.prop, res.tier, res.seed)
+    for group in ("std", "mlc", "mlp", "pool", "mlpool"):
+        for cfg in cfgs[group][:: (2 if res.tier == "quick" else 1)]:
+            process_run(quiet, E, group, cfg, rng)
+        if group in RUNNER:
+            for cfg in [c for c in cfgs[group] if c["seed"] is not None][::2]:
+                repeat_oracle(quiet, E, cfg, RUNNER[group], rng)
+    cleanup(E)
+    res.violations.extend(quiet.violations)
+    res.notes.append(f"search: {quiet.evaluations} further runs, {len(quiet.violations)} violations")
+
+
+def replay(path):
+    data = json.load(open(path))
+    print(json.dumps({k: v for k, v in data.items() if k != "broken_obligations"}, indent=1)[:2500])
+    cfg = data.get("config")
+    if not cfg:
+        print("replay: no configuration in this file (broken obligation without failing input); re-run ./check C08")
+        return 1
+    from common import Result
+    E = env()
+    res = Result(PROP, "quick", 0)
+    rng = random.Random(12345)
+    if data.get("kind") == "repeat":
+        repeat_oracle(res, E, cfg, RUNNER[cfg["engine"]], rng)
+    else:
+        group = ("pool" if cfg["engine"] == "std" else "mlpool") if cfg["nproc"] != 1 else cfg["engine"]
+        process_run(res, E, group, cfg, rng)
+    cleanup(E)
+    same = [v for v in res.violations if v["what"] == data.get("what")] or res.violations
+    for v in same[:3]:
+        print("REPRODUCED:", v["what"], json.dumps({k: v["replay"][k] for k in v["replay"] if k != "config"}, default=str)[:600])
+    if not same:
+        print("not reproduced: the implementation passes the oracle on this configuration")
+    return 1 if same else 0
